@@ -16,14 +16,14 @@ ASSUMPTIONS = ["the regular-expression stage (Ifdef.scan) is a hand recogniser c
 
 def run(ctx):
     thorough, seed = ctx["thorough"], ctx["seed"]
-    total = {"evaluations": 0, "disagreements": [], "violations": [], "streams": {}}
+    total = {"evaluations": 0, "disagreements": [], "violations": [], "streams": {}, "distinct_nontrivial": 0}
     for name, rr in (("ifdef", ifdefs.check(seed, 40000 if thorough else 4000)),
                      ("includes", includes.check(seed, 3000 if thorough else 250))):
         total["evaluations"] += rr["evaluations"]
+        total["distinct_nontrivial"] += rr.get("distinct", 0)
         total["disagreements"] += rr["disagreements"]
         total["violations"] += rr["violations"]
         total["streams"][name] = rr["evaluations"]
-    total["distinct_nontrivial"] = total["evaluations"]
     total["rule"] = ("conditional structures of depth 0..5 rendered with varying indentation / trailing blanks / junk, a third mutated; "
                      "include graphs of 2..5 files in 4 directories, a third cyclic, 40% with a planted fault")
     total["samples"] = [{"text": "#ifdef X\\n#ifdef HERA_PY\\nSET(R1,1)\\n#endif\\n#else\\nSET(R2,2)\\n#endif\\n"}]
